@@ -268,6 +268,32 @@ func checkC17(r *core.Run) {
 	}
 	// ---- C17.status
 	c17Status(r, mgr)
+	// the XA statements themselves: an XAResource method answers nil only when its statement was executed
+	// without error (no error code is "success in disguise": XAER_NOTA also means the prepared branch is gone)
+	{
+		var fs []*core.FuncInfo
+		if xi := w.Interface("pkg/datasource/sql/xa", "XAResource"); xi != nil {
+			for _, n := range w.Implementers(xi) {
+				if w.IsTestFile(n.Obj().Pos()) || strings.Contains(n.Obj().Pkg().Path(), "/mock") {
+					continue
+				}
+				for _, m := range []string{"Start", "End", "XAPrepare", "Commit", "Rollback"} {
+					if f := methodInfo(w, n, m); f != nil {
+						fs = append(fs, f)
+					}
+				}
+			}
+		}
+		for _, m := range []string{"XaCommit", "XaRollback", "XaRollbackByBranchId", "termination"} {
+			if f := methodInfo(w, xc, m); f != nil {
+				fs = append(fs, f)
+			}
+		}
+		if len(fs) < 6 {
+			r.Bad("C17.status", "INSTANCE-FLOOR XAResource statement methods", "", "fewer XA statement methods than confirmed by hand")
+		}
+		errDiscipline(r, "C17.status", dedupFns(fs), nil)
+	}
 	// ---- C17.nil
 	c17Nil(r, xc, txT)
 	c17Reset(r, xc)
